@@ -138,3 +138,35 @@ func vLengthPositions(h vHello) []int {
 	}
 	return out
 }
+
+// verifC02UnlistedSuite: a payload sealed correctly, but under a cipher suite that
+// the key's config does not list, is never accepted (the client may only use
+// suites the config offers).
+func verifC02UnlistedSuite() {
+	name := []byte("pub.example")
+	listed := [][2]uint16{{1, 1}}
+	if vBool() {
+		listed = [][2]uint16{{1, 3}, {1, 2}}
+	}
+	k := vMakeKey(0, vByte(), listed, name)
+	use := [][2]uint16{{1, 1}, {1, 2}, {1, 3}}[vInt(0, 2)]
+	isListed := false
+	for _, l := range listed {
+		if l == use {
+			isListed = true
+		}
+	}
+	outer := vHello{version: 0x0303, random: vBytes(32), sid: vBytes(1), suites: []byte{0x13, 0x01}, comp: []byte{0}}
+	outer.exts = []vExt{vSNI(name), vVersions(0x0304), {0xfe0d, nil}}
+	inner := vHello{version: 0x0303, random: vBytes(32), suites: []byte{0x13, 0x02}, comp: []byte{0},
+		exts: []vExt{vSNI(vBytes(2)), vECHInner(), vVersions(0x0304)}}
+	s := vSeal(k, use[0], use[1], outer, 2, vEncodeInner(inner, 0))
+	c, err := NewConn(context.Background(), newVTransport(s.outer.record()), WithKeys([]Key{k.key()}))
+	if isListed {
+		vAssert(err == nil && c.ECHAccepted(), "a listed suite is accepted")
+		vReach("listed")
+	} else {
+		vAssert(err != nil || !c.ECHAccepted(), "a suite the config does not list is never accepted")
+		vReach("unlisted")
+	}
+}
